@@ -9,6 +9,10 @@ A *case* is a JSON-able dict:
   extends  bool                          (main template is a child of a generated base)
   units    [stmts, ...]
   data     {name: value}                 context data (plain str / list / dict / list of dict)
+  i18n     None | {'newstyle': bool, 'install': 'null'|'object'|'uobject'|'callables',
+                   'markup': bool, 'dup': bool, 'trim_policy': bool}
+                                         (the i18n extension is loaded and gettext callables are
+                                         installed that way; see c15.py build_env / Translations)
 Nodes are lists [tag, ...]; SCHEMA gives the kind of every field:
   '-' opaque, 'E' expr, 'E?' optional expr, 'Es' list of expr, 'args' list of [kw|None, expr],
   'kv' list of [key, expr] (key: a str = metacharacter-free literal key, or an expr node = a
@@ -31,6 +35,11 @@ SCHEMA = {
     "cap.macro_arg": ["E", "E", "-"], "cap.import_macro": ["S", "-"],
     "cap.import_var": ["E"], "cap.selfblock": ["S"], "cap.joiner": ["E"], "cap.nsattr": ["E"],
     "cap.nsobj": ["E"],
+    "cap.fsetblock": ["-", "args", "S"],   # {% set v | FILTER(args) %}S{% endset %}  -> v
+    # gettext-family call: [gt, func, opts, [[name, E], ...], count E?]; func in GT_FUNCS,
+    # opts = {'ctx': str|None, 'old': 'format'|'mod'}; message texts are metacharacter-free
+    # template text derived from the variable names (see Renderer.gt)
+    "gt": ["-", "-", "args", "E?"],
     # ---- statements
     "out": ["E"], "text": ["-"],
     "if": ["S"], "for1": ["S"], "with": ["S"],
@@ -40,9 +49,16 @@ SCHEMA = {
     "forkv": ["E", "-", "E", "E"],
     "include": ["S"], "block": ["S"],
     "xblock": ["S", "X"],
+    # {% trans ["ctx"] [trimmed|notrimmed] [cname=count,] [name=E, ...] %}text {{ name }}
+    # [{% pluralize %}...]{% endtrans %}: [trans, opts, [[name|None, E], ...], count E?];
+    # a None name with a bare data leaf is an implicitly referenced context variable;
+    # opts = {'ctx': str|None, 'trim': None|'trimmed'|'notrimmed', 'cname': str, 'ws': bool,
+    #         'pl_explicit': bool}
+    "trans": ["-", "args", "E?"],
 }
+GT_FUNCS = ("gettext", "_", "ngettext", "pgettext", "npgettext")
 STMT_TAGS = {"out", "text", "if", "for1", "with", "fblock", "callblock", "callarg", "foreach",
-             "forkv", "include", "block", "xblock"}
+             "forkv", "include", "block", "xblock", "trans"}
 
 
 def tag_of(node):
@@ -137,6 +153,8 @@ def uses(case, what):
         for _, n, so in walk(u, "S"):
             if so != "S" and n[0] in ("f", "fblock") and n[1] == what:
                 return True
+            if so != "S" and n[0] == "cap" and n[1] == "fsetblock" and n[2] == what:
+                return True
             if so != "S" and n[0] == "f" and n[1] == "map":
                 for kw, e in n[3]:
                     if kw is None and e[0] == "klit" and e[1] == what:
@@ -166,7 +184,7 @@ def jlit(s: str) -> str:
 
 
 ATOMS = {"d", "L", "D", "LD", "lit", "klit", "num", "bool", "none", "hole", "var", "list",
-         "tuple", "dict", "dictof", "cap", "idx", "slice", "m"}
+         "tuple", "dict", "dictof", "cap", "idx", "slice", "m", "gt"}
 
 
 def xmlattr_key_strings(case):
@@ -337,7 +355,47 @@ class Renderer:
             return p, f"{s}[{a}:{b}]"
         if t == "cap":
             return self.cap(e, hole)
+        if t == "gt":
+            return self.gt(e, hole)
         raise AssertionError(e)
+
+    def gt(self, e, hole):
+        """A gettext-family call with keyword variables.  New-style callables take the
+        variables as keyword arguments; old-style ones return the bare (translated) string,
+        which the template formats itself with |format(...) or % {...} (docs/extensions.rst)."""
+        _, func, opts, args, num = e
+        newstyle = bool((self.case.get("i18n") or {}).get("newstyle"))
+        ps, kws = "", []
+        for name, a in args:
+            pp, x = self.expr(a, hole)
+            ps += pp
+            kws.append((name, x))
+        plural = func in ("ngettext", "npgettext")
+        nsrc = None
+        if plural:
+            pn, nsrc = self.sub(num if num is not None else ["num", 2], hole)
+            ps += pn
+        body = " lorem ".join(f"%({n})s" for n, _ in kws) or "k"
+        sing = ("%(num)s ab " if plural else "ab ") + body
+        plur = "%(num)s abs " + body
+        cargs = []
+        if func in ("pgettext", "npgettext"):
+            cargs.append(jlit(opts.get("ctx") or "ctx"))
+        cargs.append(jlit(sing))
+        if plural:
+            cargs += [jlit(plur), nsrc]
+        if newstyle:
+            cargs += [f"{n}={x}" for n, x in kws]
+            return ps, f"{func}({', '.join(cargs)})"
+        call = f"{func}({', '.join(cargs)})"
+        fmt = list(kws)
+        if plural:
+            fmt.insert(0, ("num", nsrc))
+        if not fmt:
+            return ps, call
+        if opts.get("old") == "mod":
+            return ps, "(" + call + " % {" + ", ".join(f"{jlit(n)}: {x}" for n, x in fmt) + "})"
+        return ps, "(" + call + "|format(" + ", ".join(f"{n}={x}" for n, x in fmt) + "))"
 
     def sub(self, e, hole=None):
         p, s = self.expr(e, hole)
@@ -358,6 +416,11 @@ class Renderer:
         if k == "setblock":
             v = self.fresh("v")
             return "{% set " + v + " %}" + self.stmts(e[2]) + "{% endset %}", v
+        if k == "fsetblock":
+            v = self.fresh("v")
+            p, a = self.args(e[3], hole)
+            return (p + "{% set " + v + " | " + e[2] + ("(" + a + ")" if a else "") + " %}" + self.stmts(e[4])
+                    + "{% endset %}"), v
         if k == "setexpr":
             v = self.fresh("v")
             p, s = self.expr(e[2], hole)
@@ -474,11 +537,57 @@ class Renderer:
         if t == "block":
             b = self.fresh("b")
             return "{% block " + b + " %}" + self.block_body(self.stmts(s[1])) + "{% endblock %}"
+        if t == "trans":
+            return self.trans(s)
         if t == "xblock":
             # outside extends mode: an inline block holding the base statements
             b = self.fresh("b")
             return "{% block " + b + " %}" + self.block_body(self.stmts(s[1])) + "{% endblock %}"
         raise AssertionError(s)
+
+    def trans(self, s):
+        _, opts, args, count = s
+        ps, head, refs = "", [], []
+        cname = opts.get("cname") or "num"
+        if count is not None:
+            pc, c = self.expr(count)
+            ps += pc
+            head.append(f"{cname}={c}")
+        for name, a in args:
+            if name is None and a[0] in ("d", "var"):
+                refs.append(a[1])          # implicitly referenced context variable
+                continue
+            nm = self.fresh("t")
+            pa, x = self.expr(a)
+            ps += pa
+            head.append(f"{nm}={x}")
+            refs.append(nm)
+        ws = bool(opts.get("ws"))
+
+        def text(word):
+            parts = []
+            if count is not None:
+                parts.append("{{ " + cname + " }}")
+            parts.append(word)
+            for i, r in enumerate(refs):
+                parts.append("{{ " + r + " }}")
+                if i + 1 < len(refs):
+                    parts.append("lorem")
+            if ws:
+                return "\n   " + "\n\t  ".join(parts) + " 5% k\n "
+            return " ".join(parts)
+
+        tag = "{% trans"
+        if opts.get("ctx") is not None:
+            tag += " " + jlit(opts["ctx"])
+        if opts.get("trim"):
+            tag += " " + opts["trim"]
+        if head:
+            tag += " " + ", ".join(head)
+        src = ps + tag + " %}" + text("ab")
+        if count is not None:
+            src += "{% pluralize" + (" " + cname if opts.get("pl_explicit") else "") + " %}" + text("abs")
+        return src + "{% endtrans %}"
 
     # -- whole case
     def render(self):
